@@ -120,3 +120,19 @@ Theorem C09_refused_only_when_full_after_history : forall s s' size erase,
    (count_free (s_fat s') (ft s') (max_cluster s') (length (s_fat s')) 0 < Z.to_nat (Gen.calc_num_clusters (s_p s') size))%nat).
 Proof. exact history_enospc_exact. Qed.
 Print Assumptions C09_refused_only_when_full_after_history.
+
+(** the premises are met by a history that allocates: the FAT16 volume of C08's example, after the dirty marking, a makedir and a file
+    creation; the hint has moved up, and the invariant says something about the clusters below it *)
+From PyFatV Require Import Properties.C08.
+Example C09_history_example :
+  pre ex08_s1 /\ hint_inv ex08_s1 /\ clos_refl_trans st wstep ex08_s1 ex08_b /\ hint_inv ex08_b /\ 2 < s_hint ex08_b.
+Proof.
+  assert (Hp : pre ex08_s1).
+  { unfold pre. split; [right; left; vm_compute; reflexivity|]. split.
+    - unfold geo. repeat (split; [vm_compute; first [reflexivity|discriminate]|]). vm_compute. discriminate.
+    - vm_compute; discriminate. }
+  assert (Hi : hint_inv ex08_s1) by (apply hint_zero_inv; vm_compute; reflexivity).
+  destruct C08_io_example as (_ & _ & _ & _ & _ & Hh & _).
+  split; [exact Hp|]. split; [exact Hi|]. split; [exact Hh|]. split; [exact (history_hint_inv _ _ Hp Hi Hh)|].
+  vm_compute. reflexivity.
+Qed.
